@@ -37,7 +37,12 @@ def twin_kinds(cfg):
 
 # pairs that look alike but are NOT equal
 def near_kinds(cfg):
-    ks = [(b"1", b"1.0"), (b"1", b"1N"), (b"1.0", b"1.0M"), (b":a", b"a"), (b"\"a\"", b"a"), (b"\\a", b"\"a\""), (b"[1]", b"#{1}"),
+    ks = []
+    if cfg in ("clj", "both"):
+        # a/b != c/d although a*d == c*b modulo 2^64
+        ks += [(b"4294967296/3", b"4294967296/4294967299"), (b"1/3", b"6148914691236517206/1"), (b"3/4294967297", b"12884901891/4294967297"),
+               (b"-4294967296/3", b"-4294967296/4294967299"), (b"1/2", b"1/3"), (b"2/3", b"3/2"), (b"9223372036854775807/2", b"9223372036854775807/3")]
+    ks += [(b"1", b"1.0"), (b"1", b"1N"), (b"1.0", b"1.0M"), (b":a", b"a"), (b"\"a\"", b"a"), (b"\\a", b"\"a\""), (b"[1]", b"#{1}"),
           (b"[1 2]", b"[2 1]"), (b"{:a 1}", b"{:a 2}"), (b"#t 1", b"#u 1"), (b"nil", b"false"), (b"[nil]", b"[]"), (b"\"a\\\\n\"", b"\"a\\n\"")]
     return ks
 
@@ -122,6 +127,17 @@ def run(tier):
                                     el.insert(min(len(el), qi * step + qi), q)
                             docs.append(build(kind, el))
                             expect.append(("dup" if dup else "nodup", kind, n, seq[0], seq[-1]))
+        # namespaced maps: keys are compared after qualification; a symbol and a keyword of one name stay different
+        if cfg in ("clj", "both"):
+            for n in (0, 14, 15, 16, 100, 1000):
+                pad = b" ".join(b":p%d %d" % (i, i) for i in range(n))
+                for body, dup in ((b"id 1 :id 2", False), (b"id 1 db/id 2", True), (b":id 1 :db/id 2", True), (b":_/id 1 :id 2", False), (b":_/id 1 :_/id 2", True),
+                                  (b"_/id 1 id 2", False), (b"_/id 1 _/id 2", True), (b":id 1 :other/id 2", False), (b"id 1 :db/id 2 db/id 3", True),
+                                  (b":_x/id 1 :_y/id 2", False), (b":_x/id 1 :id 2", False), (b"\"id\" 1 :id 2 id 3", False)):
+                    docs.append(b"#:db{" + body + b" " + pad + b"}")
+                    expect.append(("dup" if dup else "nodup", "map", n + 2, body, b"#:db"))
+                    docs.append(b"#:db{" + pad + b" " + body + b"}")
+                    expect.append(("dup" if dup else "nodup", "map", n + 2, body, b"#:db"))
         # mixed-kind pairwise-unequal literals of generated values
         for _ in range(40 if tier == "quick" else 300):
             n = rng.choice([5, 17, 40, 120])
